@@ -98,18 +98,20 @@ def rand_prog(rng, asyncapp, big=False):
     return ",".join(ops)
 
 
-def line(proto, ka, app, mode, fb, prog, sched, gz=0, cache=0, nh=1, nc=1, cl=0):
+def line(proto, ka, app, mode, fb, prog, sched, gz=0, cache=0, nh=1, nc=1, cl=0, chain=2):
     if mode in ("raw", "async_raw"):
         cache = 0
         cl = 0
     if cl and (mode == "normal" and gz):
         cl = 0
-    return ("proto=%s ka=%d app=%s mode=%s fb=%d gz=%d cache=%d nh=%d nc=%d cl=%d prog=%s sched=%s" % (
-        proto, ka, app, mode, fb, gz, cache, nh, nc, cl, prog, sched))
+    return ("proto=%s ka=%d chain=%d app=%s mode=%s fb=%d gz=%d cache=%d nh=%d nc=%d cl=%d prog=%s sched=%s" % (
+        proto, ka, chain, app, mode, fb, gz, cache, nh, nc, cl, prog, sched))
 
 
 def ok(prog, app, mode, fb, gz=0, cache=0):
-    return defect_class(prog, app, mode, fb, gz, cache) is None
+    """both named classes were fixed in /repo (d4efce9, 490b6de): their programs are generated like any other;
+    defect_class() is kept to give a regression the old, stable signature"""
+    return True
 
 
 def plans(rng, quick):
@@ -183,6 +185,25 @@ def plans(rng, quick):
                 if not ok(prog, app, mode, fb):
                     continue
                 fam.append(line(variant[0], variant[1], app, mode, fb, prog, "chunk:%d:2" % (29 if quick else 7), nh=0, nc=0))
+    # F: keep-alive chains of 3 requests (FastCGI: request ids 1, 2, 1) whose responses contain single writes of
+    #    70 000 .. 150 000 bytes: state that survives from one request to the next on a connection (record headers,
+    #    framing decision) must not leak into the next response
+    nchain = 1 if quick else 6
+    for rep in range(nchain):
+        for proto in ("fcgi", "http11"):
+            for (app, mode, fb) in (("sync", "nogzip", 1), ("async", "async", 1), ("async", "async", 0), ("sync", "normal", 1)):
+                big = rng.randint(70000, 150000)
+                progs = ["W%d" % big, "W5,F,W%d" % big, "W%d,%s,W%d" % (rng.randint(70000, 99000), "A" if app == "async" else "F", rng.randint(66000, 90000))]
+                for pi, prog in enumerate(progs):
+                    sched = ["all", "rand:%d:2" % (rep * 17 + pi), "chunk:%d:3" % rng.randint(20000, 70000)][(pi + rep) % 3]
+                    fam.append(line(proto, 1, app, mode, fb, prog, sched, gz=(1 if mode == "normal" else 0), nh=1, nc=1,
+                                    cl=(1 if pi == 0 and proto == "http11" and mode != "normal" else 0), chain=3))
+    # G: asynchronous partial buffering, every write goes straight to nonblocking_write: per-call limits chosen so
+    #    that a later write_some takes the whole old pending queue plus a strict prefix of the new data
+    for (proto, ka) in (("scgi", 0), ("http11", 1), ("fcgi", 1)):
+        for prog in ("S0,W200,W200,W200", "S0,W300,W100,W300,F", "W600,F,W600,F,W50"):
+            for k in (range(100, 420, 40) if quick else range(60, 700, 10)):
+                fam.append(line(proto, ka, "async", "async", 0, prog, "chunk:%d:0" % k, nh=0, nc=0))
     # shards: interleave so that every shard has a similar mix
     nshard = 6 if quick else 48
     shards = [[] for _ in range(nshard)]
